@@ -123,6 +123,17 @@ def gen_ops(rng, sess, usable, tier):
             ops.append({"op": "newcube", "cube": cube})
         elif r < 0.84 and cube not in "CD":
             ops.append({"op": "inferred", "cube": cube, "agg": rng.choice(good)})
+        elif r < 0.88 and sess["cube"] == "ccube":
+            # the CALLER re-encodes one of its dimension indexes in place (same dense content, other common)
+            which = rng.choice("AB")
+            ops.append({"op": "caller_shift", "which": which, "dim": rng.randrange(len(sess["dims" + which])),
+                        "to": rng.randrange(4)})
+        elif r < 0.92:
+            # the CALLER rewrites one of its fact arrays in place and builds new aggregate objects from it
+            i = rng.randrange(len(sess["vars"]))
+            spec = cubes.gen_fact(rng, sess["N"], None if len(sess["vars"][i]["shape"]) == 1 else sess["vars"][i]["shape"][1])
+            ops.append({"op": "caller_rewrite", "var": i, "values": spec["values"], "validity": spec["validity"],
+                        "form": spec["form"], "dtype": spec["dtype"]})
         elif sess["cube"] == "ccube":
             ops.append(gen_index_op(rng, sess))
         else:
@@ -412,6 +423,62 @@ class PuritySession:
                             % (self.s["aggs"][i]["f"], cubes.first_difference(want, got)))
         self.earlier.append((where, got, cubes.freeze(got)))
         return where
+
+    def do_caller_shift(self, op):
+        """Not a library call under test: the caller legitimately changes its own index (shift_common keeps the dense
+        content).  Afterwards results must equal a fresh evaluation of the arguments AS THEY ARE NOW."""
+        c = op["which"]
+        if self.kind != "ccube" or c not in self.dims or op["dim"] >= len(self.dims[c]):
+            return None
+        d = self.s["dims" + c][op["dim"]]
+        if len(d["shape"]) > 2:
+            return None  # shift_common is specified for 1-D and 2-D indexes only
+        extent = self.s["ishape" + c][op["dim"]]
+        to = op["to"] % max(1, extent)
+        try:
+            self.dims[c][op["dim"]].shift_common(to)
+        except Exception:
+            return None
+        self.s = dict(self.s)
+        self.s["dims" + c] = [dict(x) for x in self.s["dims" + c]]
+        self.s["dims" + c][op["dim"]]["common"] = to
+        self.w[c] = workload_of(self.s, c)
+        for key in [k for k in self.refs if k[0] == c]:
+            del self.refs[key]
+        self.snap = self._snapshot()
+        return "caller:shift_common"
+
+    def do_caller_rewrite(self, op):
+        """The caller re-uses one array buffer: new values written in place, then NEW aggregate objects built from
+        the same array object.  Their results must be those of the values as they are now."""
+        i = op["var"]
+        if i >= len(self.vars):
+            return None
+        old = self.s["vars"][i]
+        if old["form"] != op["form"] or old["dtype"] != op["dtype"] or old.get("layout") in ("readonly", "list"):
+            return None
+        new_spec = dict(old, values=list(op["values"]), validity=op["validity"])
+        fresh = cubes.build_var(dict(new_spec, layout="plain"))
+        target = self.vars[i]
+        try:
+            if isinstance(target, tuple):
+                target[0][...] = fresh[0]
+                target[1][...] = fresh[1]
+            else:
+                target[...] = fresh
+        except Exception:
+            return None
+        self.s = dict(self.s)
+        self.s["vars"] = list(self.s["vars"])
+        self.s["vars"][i] = new_spec
+        for n, spec in enumerate(self.s["aggs"]):
+            if (spec.get("arr") or {}).get("var") == i:
+                self.aggs[n] = self._agg(spec, shared=True)  # a NEW aggregate object from the SAME array object
+                for key in [k for k in self.refs if k[1] == n]:
+                    del self.refs[key]
+        self.snap = self._snapshot()
+        self.count("probe_caller_rewrote_shared_array_in_place")
+        return "caller:rewrite"
 
     def do_index(self, op):
         if self.kind != "ccube":
